@@ -54,6 +54,21 @@ def run(ctx):
                 fold_objs[id(a)] = (f0, f1, f0)
     except Exception:  # noqa: BLE001 - no tz database
         pass
+    # counts and sizes at the boundaries of the zig-zag varints that prefix them: 63/64 (one → two
+    # bytes) and 8191/8192 (two → three) headers, header keys, header values, keys, values
+    for nh in (63, 64, 65, 127, 128, 200) + ((8191, 8192) if ctx.tier == "thorough" else ()):
+        a = recgen.gen_new_batch(rng)
+        r0 = list(a[1][4][1][0][1])
+        r0[5] = ("A", [("E", [("Y", b"h%d" % j), ("Y", bytes([j % 251]) * (j % 3)) if j % 5 else ("N",)]) for j in range(nh)])
+        a[1][4] = ("A", [("E", r0)] + a[1][4][1][1:3])
+        batches.append(a)
+    for sz in (63, 64, 65, 8191, 8192, 8193):
+        a = recgen.gen_new_batch(rng)
+        r0 = list(a[1][4][1][0][1])
+        r0[3] = ("Y", bytes(sz)); r0[4] = ("Y", b"\x01" * sz)
+        r0[5] = ("A", [("E", [("Y", b"k" * sz), ("Y", b"v" * sz)])])
+        a[1][4] = ("A", [("E", r0)])
+        batches.append(a)
     for a in batches:
         try:
             nb = recgen.build_new_batch(a)
